@@ -408,6 +408,15 @@ theorem pttBasis_over_generated_mesh (hcast : ∀ n : Int, (RealLike.ofInt n : R
         (Gen.meshRot (Gen.meshCoord s0 i (0 : R)) (Gen.meshCoord s1 j (0 : R)) 1 0).2 px0 px1) k * mask i j := by
   rw [ptt_mesh_is_generated hcast]; rfl
 
+/-- **The segmented OPD update of the model is the regenerated per-segment term of `fit_tilt`**: `fitTiltOpdSeg` sums, over the
+segments, `Gen.fitSegOpdTerm` — read from `opd_no_tilt[seg] = (plane.opd - seg_tilt.reshape(…)) * self.mask[seg]` — of the old OPD,
+the segment's subtracted ramp and the segment's mask value. A changed sign or a dropped mask factor in the source changes
+`Gen.fitSegOpdTerm` and this proof (and `fit_tilt_total_unchanged_seg` through it) stops checking. -/
+theorem fitTiltOpdSeg_is_generated (s0 s1 : Int) (px0 px1 : R) (segs : List (Int × (Int → Int → R) × (Int → R)))
+    (opd : Int → Int → R) (i j : Int) :
+    fitTiltOpdSeg s0 s1 px0 px1 segs opd i j =
+      sumList segs fun s => Gen.fitSegOpdTerm (opd i j) (fitSegSubtract s0 s1 px0 px1 s.1 s.2.1 s.2.2 i j) (s.2.1 i j) := rfl
+
 /-- segmented planes: on a pixel of segment `s` (binary, pairwise disjoint masks) the new OPD plus the ramp of that
 segment's own recorded tilt is the old OPD -/
 theorem fit_tilt_total_unchanged_seg (h1 : (RealLike.ofInt 1 : R) = 1) (s0 s1 : Int) (px0 px1 : R)
